@@ -132,7 +132,7 @@ func fuzz(c *core.Ctx) []tcase {
 		reported := false
 		if m := reFailFile.FindStringSubmatch(text); m != nil {
 			if s, good := decodeCorpusFile(filepath.Join(dir, m[1])); good {
-				shape := "parser-panic"
+				shape := panicShape(text)
 				if strings.Contains(text, "slow parse") {
 					shape = "parser-slow"
 				} else if strings.Contains(text, "error position") {
@@ -161,7 +161,7 @@ func fuzz(c *core.Ctx) []tcase {
 				break
 			}
 			if s, good := decodeCorpusFile(f); good {
-				cases = append(cases, tcase{"coverage-guided corpus entry", s})
+				cases = append(cases, mkCase("coverage-guided corpus entry", s))
 			}
 		}
 	}
